@@ -14,7 +14,7 @@ CLAIMED = {
                 ref='DESIGN.md section 6 C02'),
     'C16': dict(text='Every MIR body reachable from the five public functions (call graph from the MIR, closures included) and every library callee named there is scanned for places that outlive a call (statics, thread locals, interior-mutable or synchronisation types, effectful library calls); none exists, so the symbolic result of a call is a function of its two arguments. If one is found, call histories are replayed natively against fresh processes.',
                 ref='DESIGN.md section 6 C16'),
-    'C03': dict(text='The five real parsers (all of parser.rs from MIR) executed over every stream of exactly K symbolic tokens, K = 0..3 (thorough 4), over the complete token vocabulary: the set of accepted token sequences equals the set the reference grammar accepts (both directions) and the trees agree; plus the tokenizers on every string of 0..2 characters.',
+    'C03': dict(text='The five real parsers (all of parser.rs from MIR) executed over every stream of exactly K symbolic tokens, K = 0..3 (thorough 4), over the complete token vocabulary: the set of accepted token sequences equals the set the reference grammar accepts (both directions) and the trees agree; plus the tokenizers on every string of 0..2 characters, and mod.rs of each evaluator on every string of 0..3 (thorough 0..5) characters with tokenizer+parser and evaluator as nondeterministic stubs: Ok is returned only through Parser::new, parse and eval on the whitespace-free input (no bypass).',
                 ref='DESIGN.md section 6 C03'),
     'C04': dict(text='The real parsers over template token streams X op Y op Z (every binary/postfix operator, optional prefix signs and `!`, every bracket kind around every sub-sequence): every accepted sequence yields exactly the tree of the reference operator-precedence grammar (precedence, left associativity, bracket overriding).',
                 ref='DESIGN.md section 6 C04'),
@@ -22,9 +22,9 @@ CLAIMED = {
                 ref='DESIGN.md section 6 C12'),
     'C13': dict(text='(W, metamorphic) the public functions from MIR on templates with symbolic digits, with and without one arbitrary White_Space character inserted (also inside names and numbers): z3 shows for every feasible pair of paths the same value bit for bit or Err in both; (T) every alias gives the token of its synonym; (P) bracket notations, mod/pow as functions, superscripts, prefix + and redundant brackets build the reference tree of their named form.',
                 ref='DESIGN.md section 6 C13'),
-    'C15': dict(text='Pairwise over the real evaluators: the same integer node in eval_i64 and eval_number on the same arbitrary i64 operands (Ok(v) implies Integer(v)); every Float-operand node of the shared f64 grammar in eval_number against the f64 reference semantics that C05/C10 tie eval_f64 to, under the stated restriction. The 1e-9 agreements with eval_complex / eval_decimal are outside.',
+    'C15': dict(text='Pairwise over the real evaluators: the same integer node in eval_i64 and eval_number on the same arbitrary i64 operands (Ok(v) implies Integer(v)); every Float-operand node of the shared f64 grammar in eval_number against the f64 reference semantics that C05/C10 tie eval_f64 to, under the stated restriction. the five parsers build the one reference tree on templates over the operators they share. The 1e-9 numeric agreements with eval_complex / eval_decimal are outside.',
                 ref='DESIGN.md section 6 C15'),
-    'C20': dict(text='For the listed parent nodes, child positions and inner nodes of eval_f64, eval_i64, eval_number, eval_complex: three explorations of ast::eval from MIR related by substitution - eval(Outer(..Inner(x)..)) equals eval(Outer(..Number(v)..)) with v := value of Inner(x), Err when Inner is Err - decided by z3 for every feasible combination of paths; plus bracketed groups in operand / argument position at the parser level.',
+    'C20': dict(text='For the listed parent nodes, child positions and inner nodes of eval_f64, eval_i64, eval_number, eval_complex: three explorations of ast::eval from MIR related by substitution - eval(Outer(..Inner(x)..)) equals eval(Outer(..Number(v)..)) with v := value of Inner(x), Err when Inner is Err - decided by z3 for every feasible combination of paths; plus bracketed groups in operand / argument position at the parser level, and mod.rs of every evaluator (stages stubbed) returns exactly the evaluator\'s value.',
                 ref='DESIGN.md section 6 C20'),
     'C14': dict(text='The public eval_* functions from the MIR of mod.rs on `@`, `(@)`, `+@`, `((@))` with a fully symbolic placeholder return exactly the placeholder; in the parser every `@` leaf of every accepted template stream is the placeholder term itself and `@` never joins an implicit product.',
                 ref='DESIGN.md section 6 C14'),
@@ -42,9 +42,9 @@ CLAIMED = {
                 ref='DESIGN.md section 6 C10'),
     'C19': dict(text='Tokenizer::next of all five tokenizers on literal templates with n symbolic digits (n up to 40, thorough 100), every point position and an arbitrary following character: the Num token carries exactly the rational value of the literal (Integer/Float kind in eval_number, exact scale in eval_decimal), exactly the literal is consumed, and no conversion can panic.',
                 ref='DESIGN.md section 6 C19'),
-    'C11': dict(text='The aggregate arms of ast::eval (eval_i64, eval_f64, eval_number) executed from MIR on argument vectors of 1..3 (thorough 4) arbitrary values and with a failing argument in each position; z3 compares with the order-independent definition. gcd/lcm: operands bounded (see evidence), compared with an unrolled reference Euclid.',
+    'C11': dict(text='The aggregate arms of ast::eval (eval_i64, eval_f64, eval_number) executed from MIR on argument vectors of 1..3 (thorough 4) arbitrary values and with a failing argument in each position; z3 compares with the order-independent definition (exact integer extremum when all eval_number arguments are Integers). gcd/lcm: operands bounded (see evidence), compared with an unrolled reference Euclid.',
                 ref='DESIGN.md section 6 C11'),
-    'C17': dict(text='For the feature subsets (quick: singles, pairs with eval_i64, full set; thorough: all 31) the MIR dump succeeds, exactly the selected eval_* functions are compiled and link, every MIR body of each selected evaluator equals its default-build body (name-independent fingerprint), and the parser executed from that subset\'s MIR (with its cfg-dependent OperatorCategory order) groups X op Y op Z for every operator pair as the reference grammar.',
+    'C17': dict(text='For the feature subsets (quick: singles, pairs with eval_i64, full set; thorough: all 31) the MIR dump succeeds (a failing subset is re-built with cargo and reported), exactly the selected eval_* functions are compiled and link, every MIR body of the subset equals a default-build body of the same trimmed name (name-independent fingerprint; cfg-dependent bodies must be covered semantically), Number::from(f64) is decided from each subset\'s MIR for all doubles, and the parser executed from that subset\'s MIR (with its cfg-dependent OperatorCategory order) groups X op Y op Z for every operator pair as the reference grammar.',
                 ref='DESIGN.md section 6 C17'),
     'C18': dict(text='Both From impls of Number executed from MIR on one fully symbolic argument: z3 decides the property for all 2^64 doubles and all i64 (no bound on the argument).',
                 ref='DESIGN.md section 6 C18'),
